@@ -663,6 +663,7 @@ func initStubs() {
 		return ret(st)
 	}
 	initPromStubs()
+	initStringParserStubs()
 	initCtxStubs()
 	initMathStubs()
 	initTimeStubs()
